@@ -636,6 +636,13 @@ class Scheduler:
 
                 job.state = state
 
+                # The start was aborted (a dependency could not be locked): if
+                # all dependencies became available again in the meantime, the
+                # notification has already been consumed
+                if state == JobState.WAITING and job.unsatisfied == 0:
+                    job.state = JobState.READY
+                    job._readyEvent.set()
+
         for listener in self.listeners:
             try:
                 listener.job_state(job)
